@@ -78,9 +78,18 @@ def gen_title(rng):
     return "".join(rng.choice(["a", "b", " ", "/", "\\", "\\/", "\t", "\x1f", "é", "x", "\n"]) for _ in range(n))
 
 
+GHOSTS = []      # paths that existed earlier in the current history and were deleted since (set by gen_history)
+
+
 def gen_path(rng, known):
-    """a path string: mostly joins of titles, sometimes an existing path, sometimes decorated"""
+    """a path string: mostly joins of titles, sometimes an existing path, sometimes decorated; after deletions also
+    paths below something that was deleted (the same one, or a new sibling under the same vanished parent)"""
     r = rng.random()
+    if GHOSTS and r < 0.12:
+        p = rng.choice(GHOSTS)
+        if "/" in p and rng.random() < 0.6:
+            p = p.rsplit("/", 1)[0] + "/" + gen_title(rng)
+        return p
     if known and r < 0.45:
         p = rng.choice(known)
         if rng.random() < 0.3:
@@ -94,7 +103,8 @@ def gen_path(rng, known):
 
 
 def gen_text(rng):
-    return rng.choice(["", "text", "line1\nline2", "ünï", "x" * rng.randint(1, 5), "<b>h</b>", " "])
+    return rng.choice(["", "text", "line1\nline2", "ünï", "x" * rng.randint(1, 5), "<b>h</b>", " ",
+                       "line1\r\nline2", "line1\rline2", "text\r\n", "text\n"])
 
 
 def gen_table(rng):
@@ -104,8 +114,36 @@ def gen_table(rng):
     names = rng.sample(["a", "b", "c d", "é", "x|y", "n\nl", "", "1"], ncols)
     for name in names:
         cells = [rng.choice([None, 1, 2.5, "s", "m\nn", "\n", "ü", float("nan"), True, "a|b", ""]) for _ in range(nrows)]
+        if rng.random() < 0.2:
+            # numeric column that the harness hands over as a numpy array (float32 / int8 / masked): see np_column()
+            cells = [rng.choice([0.1, 1, 2.5, 1e-3, 3]) for _ in range(nrows)]
+            name = rng.choice(["f32:", "i8:", "masked:", "f16:"]) + name
         cols.append((name, cells))
     return cols
+
+
+def np_column(name, cells):
+    """(column name, values as handed to add_table) for the `f32:`/`i8:`/`masked:`/`f16:` columns of gen_table"""
+    import numpy as np
+
+    tag, _, rest = name.partition(":")
+    if tag == "f32":
+        return rest, np.array(cells, dtype="float32")
+    if tag == "f16":
+        return rest, np.array(cells, dtype="float16")
+    if tag == "i8":
+        return rest, np.array([int(c) for c in cells], dtype="int8")
+    if tag == "masked":
+        return rest, np.ma.MaskedArray(np.array(cells, dtype="float64"), mask=[i % 2 == 0 for i in range(len(cells))])
+    return name, list(cells)
+
+
+def table_values(t):
+    """the columns of one generated table as they are handed to Card.add_table"""
+    out = []
+    for c, vs in t:
+        out.append(np_column(c, vs) if c.split(":")[0] in ("f32", "i8", "masked", "f16") and ":" in c else (c, list(vs)))
+    return out
 
 
 def gen_opt(rng, choices):
@@ -148,7 +186,7 @@ def gen_op(rng, known, weights):
                     items=items, as_df=rng.random() < 0.4)
     if kind == "add_metrics":
         names = rng.sample(["acc", "f1", "r 2", "é", "x/y", "", "acc "], rng.randint(0, 3))
-        items = [[n, rng.choice([0.5, 1, "good", "m\nl", float("inf"), None])] for n in names if n not in RESERVED]
+        items = [[n, rng.choice([0.5, 1, "good", "m\nl", float("inf"), None, 1.0, True, 0, 0.0, -0.0, False, "1"])] for n in names if n not in RESERVED]
         return dict(op="card.add_metrics", section=gen_path(rng, known), description=gen_opt(rng, ["mdesc"]), items=items)
     if kind == "add_hyperparams":
         names = rng.sample(["alpha", "C", "est__n", "fit_intercept", "é"], rng.randint(0, 4))
@@ -215,8 +253,13 @@ def gen_history(rng, length, weights=None):
     with patched_table():
         card = Card(StubModel(), template=None)
         outs = [dict(r="ok")]
+        ever = set()
+        GHOSTS.clear()
         for _ in range(length):
-            known = known_paths(card) if rng.random() < 0.8 else []
+            now = known_paths(card)
+            ever |= set(now)
+            GHOSTS[:] = sorted(ever - set(now))
+            known = now if rng.random() < 0.8 else []
             op = gen_op(rng, known, weights)
             hist.append(op)
             outs.append(exec_op(card, op))
@@ -243,7 +286,8 @@ def model_view(op):
     """the op as sent to the Lean driver (cells/values stringified, harness-only fields dropped)"""
     o = dict(op)
     if o["op"] == "card.add_table":
-        o["items"] = [[k, [[c, [_cell(v) for v in vs]] for c, vs in t]] for k, t in o["items"]]
+        # a cell is the text of the element one gets by iterating the column that was handed over
+        o["items"] = [[k, [[c, [_cell(v) for v in vs]] for c, vs in table_values(t)]] for k, t in o["items"]]
         o.pop("as_df", None)
     if o["op"] in ("card.add_metrics", "card.add_hyperparams"):
         o["items"] = [[k, _cell(v)] for k, v in o["items"]]
@@ -263,12 +307,14 @@ def exec_op(card, op):
         if name == "add_table":
             kw = {}
             for k, t in op["items"]:
-                if op.get("as_df") and t and len({len(vs) for _, vs in t}) == 1:
+                tv = table_values(t)
+                plain = all(isinstance(vs, list) for _, vs in tv)
+                if op.get("as_df") and plain and t and len({len(vs) for _, vs in t}) == 1:
                     import pandas as pd
 
-                    kw[k] = pd.DataFrame({c: pd.Series(vs, dtype=object) for c, vs in t})
+                    kw[k] = pd.DataFrame({c: pd.Series(vs, dtype=object) for c, vs in tv})
                 else:
-                    kw[k] = {c: list(vs) for c, vs in t}
+                    kw[k] = {c: vs for c, vs in tv}
             card.add_table(description=op["description"], folded=op["folded"], **kw)
             return dict(r="ok")
         if name == "add_metrics":
@@ -302,15 +348,10 @@ def exec_op(card, op):
         if name == "toc":
             return dict(r="text", s=card.get_toc())
         if name == "save":
-            d = tempfile.mkdtemp(prefix="verif-card-")
-            try:
-                p = Path(d) / "README.md"
-                card.save(p)
-                data = p.read_bytes()
-            finally:
-                for f in Path(d).iterdir():
-                    f.unlink()
-                os.rmdir(d)
+            # always the same path: the file of the previous save (of this or another card) is still there
+            p = Path(save_dir()) / "README.md"
+            card.save(p)
+            data = p.read_bytes()
             return dict(r="text", s=data.decode("utf-8"), rendered=card.render())
     except KeyError:
         return dict(r="err", e="KeyError")
@@ -319,6 +360,20 @@ def exec_op(card, op):
     except TypeError:
         return dict(r="err", e="TypeError")
     raise RuntimeError("unknown op " + name)
+
+
+_SAVE_DIR = None
+
+
+def save_dir():
+    global _SAVE_DIR
+    if _SAVE_DIR is None or not os.path.isdir(_SAVE_DIR):
+        import atexit
+        import shutil
+
+        _SAVE_DIR = tempfile.mkdtemp(prefix="verif-card-")
+        atexit.register(shutil.rmtree, _SAVE_DIR, True)
+    return _SAVE_DIR
 
 
 def run_impl(history):
